@@ -79,7 +79,15 @@ def check_walks(ctx, w):
     ctx.ob('I-REL', f.construct, 'auxiliary parsed at entry_offset', ops == [('parse', 'stream', 'version_auxiliaries_struct', 'entry_offset')], got=ops)
     loops = [n for n in ast.walk(f.node) if isinstance(n, ast.For)]
     ctx.ob('I-REL', f.construct, 'count auxiliaries', len(loops) == 1 and expr.nfs(loops[0].iter, env) == 'range(count)')
-    got = tr.get('name')
+    # the name handed to the VersionAuxiliary (second argument / name=), through a local or written in place
+    mk = [c for c in ast.walk(f.node) if isinstance(c, ast.Call) and dispatch.callee_name(c) == 'VersionAuxiliary']
+    arg = None
+    if len(mk) == 1:
+        arg = mk[0].args[1] if len(mk[0].args) > 1 else next((k.value for k in mk[0].keywords if k.arg == 'name'), None)
+    if isinstance(arg, ast.Name):
+        got = tr.get(arg.id)
+    else:
+        got = [('=', expr.nfs(arg, env))] if arg is not None else None
     ok = got is not None and len(got) == 1 and got[0][1].startswith('get_string(stringtable,index(') and got[0][1].endswith(',%s))' % nf('name', True))
     ctx.ob('I-REL', f.construct, 'name from the linked string table at <prefix>a_name', ok, got=got)
 
